@@ -99,9 +99,22 @@ from xml.sax.saxutils import escape  # noqa: E402
 import datetime as _dt  # noqa: E402
 
 
-def num(q):
+def num(q, rng=None):
+    """a number of seconds, in one of several equivalent decimal spellings"""
     v = q / 4.0
-    return str(int(v)) if v == int(v) else repr(v)
+    plain = str(int(v)) if v == int(v) else repr(v)
+    if rng is None:
+        return plain
+    k = rng.random()
+    if k < 0.6:
+        return plain
+    if k < 0.7:
+        return "%.2f" % v
+    if k < 0.8:
+        return "0" + plain
+    if k < 0.9:
+        return " " + plain + " "
+    return "+" + plain
 
 
 def tim(q):
@@ -138,8 +151,9 @@ def render_view(v, rng):
             out.append("<mosExternalMetadata><mosSchema>sch.time</mosSchema></mosExternalMetadata>")
         elif s["md"] == "payload":
             pay = []
-            for tag, key, f in (("StoryStarted", "st", tim), ("StoryDuration", "sd", num), ("TextTime", "tt", num),
-                                ("MediaTime", "mt", num), ("StoryEnded", "en", tim)):
+            for tag, key, f in (("StoryStarted", "st", tim), ("StoryDuration", "sd", lambda q: num(q, rng)),
+                                ("TextTime", "tt", lambda q: num(q, rng)), ("MediaTime", "mt", lambda q: num(q, rng)),
+                                ("StoryEnded", "en", tim)):
                 if s[key]:
                     pay.append("<%s>%s</%s>" % (tag, f(s[key][0]), tag))
             out.append("<mosExternalMetadata><mosSchema>sch.time</mosSchema><mosPayload><Approved>1</Approved>%s</mosPayload>"
